@@ -23,14 +23,20 @@ PROP = dict(
          "bursts of 20 ms .. 10 s; (FEC) periodic single losses over 90-140 packets. Call shapes: whole-packet concealment, 2.5-20 ms pieces, FEC from the "
          "next packet, FEC with a two-packet frame_size. Non-trivial = at least one loss followed by at least one reception; distinct = (configuration, pattern).",
     required_labels={"any": {"c09_loss/plc-whole": 50, "c09_loss/plc-in-pieces": 5, "c09_loss/fec-with-lbrr": 20, "c09_loss/reconvergence-checked": 50,
-                             "c09_loss/resume-peak-checked": 50, "c09_loss/decay-checked": 5, "c09_loss/fec-aggregate-checked": 3, "c09_loss/burst>=1s": 5, "c09_loss/decay-vs-frozen-checked": 5, "c09_loss/reconvergence-vs-frozen-checked": 50, "c09_loss/fec-vs-frozen-checked": 5}},
+                             "c09_loss/resume-peak-checked": 50, "c09_loss/decay-checked": 5, "c09_loss/fec-aggregate-checked": 3, "c09_loss/burst>=1s": 5, "c09_loss/decay-vs-frozen-checked": 5, "c09_loss/reconvergence-vs-frozen-checked": 50, "c09_loss/fec-vs-frozen-checked": 5, "c09_loss/class:gated-bursts": 20, "c09_loss/fec-level-checked:class0": 50, "c09_loss/fec-level-checked:class1": 15,
+                             "c09_loss/fec-level-checked:class2": 5, "c09_loss/fec-low-frame-count-checked": 50, "c09_loss/fec-aggregate-checked-40-60ms": 15}},
     exhaustive_parts={"thorough": ["all 4096 loss patterns over a 12-packet window x 8 configurations (SILK/hybrid/CELT/auto, 2.5-40 ms, mono/stereo, FEC on/off)"],
                       "quick": ["1/64 stratified slice of the pattern x configuration space"]},
     assumptions=["Level bounds (calib/C09.json) were measured on the unchanged tree, whose decoder equals the frozen snapshot; margins >= 2x.",
                  "The decay clause applies to MDCT-only streams with speech-like (non-stationary) input. The MDCT PLC decays to its background-noise estimate (the signal itself "
                  "for stationary input) and the speech layer adds comfort noise (its level estimate is also trained by the first decoded frame), so no decay is asserted there; "
                  "consequently a change of the SILK PLC attenuation constants alone is not detected by this check (sensitivity log).",
-                 "FEC superiority is asserted on the aggregate over >= 20 single losses with LBRR available, never per frame.",
+                 "FEC superiority (error energy at least 2 dB below concealment) is asserted on the aggregate over >= 20 single losses with LBRR available at 10/20 ms, never per frame; "
+                 "for 40/60 ms packets the waveform error of LBRR frames is inherently close to that of concealment (observed gain -0.003..15 dB, median 7 dB), so only 'not worse than "
+                 "concealment by 1.5 dB' is asserted there and the accuracy claim is carried by level clauses instead: per position class (first speech frame of the packet / later frame after a frame "
+                 "with LBRR data / later frame after a frame without) the energy of the recovered frames against the same frames decoded without loss >= -24 dB and, for later frames, "
+                 "within 20 dB of the first frames of the same stream (observed on the repaired tree >= -14.4 dB); and over all recovered frames with real signal at most 1 + n/40 may be more "
+                 "than 15 dB too quiet (repaired tree: none in 970 cases).  Mono streams only (the per-frame LBRR flags are read from the packet header with the RFC tables).",
                  "One-sided clauses relative to the frozen decoder fed the identical call sequence (per-case calibration): concealed peak <= 3x, RMS after >= 1 s of loss <= 2x, "
                  "aggregate FEC error energy <= 2x, and wherever the frozen decoder has re-converged to >= 30 dB in a 200 ms window the tree must be at >= 18 dB. "
                  "A change that makes concealment better than the frozen decoder never trips them."],
